@@ -107,6 +107,9 @@ def file_task(task):
                     a, b = set(got[0]), set(want)
                     prev = lines[p - 1].kind if p > 0 else "start"
                     nxt = lines[p].kind if p < len(lines) else "eof"
+                    if p > 0 and lines[p - 1].text().startswith("#") and not a - b and \
+                            {(d[1], d[2]) for d in b - a} == {("NL_AFTER_PREPROC", npre + p + 2)}:
+                        prev, nxt = "directive", "code:only-NL_AFTER_PREPROC-disappears"
                     out.append(("L2", f"{'line' if c.startswith('//') else 'block'}-comment:between={prev}|{nxt}",
                                 f"comment {c!r} before body line {p + 1}: only after {sorted(a - b)[:3]}, only expected "
                                 f"{sorted(b - a)[:3]}, exc {got[1]}", text, full_text))
@@ -120,6 +123,98 @@ def file_task(task):
                 a, b = set(got[0]), set(full[0])
                 out.append(("L3", f"append#{k}:funcs={nfuncs}", f"appending function #{k}: new {sorted(a - b)[:3]}, lost {sorted(b - a)[:3]}, "
                                                                f"exc {got[1]}", text, full_text))
+    return n, out
+
+
+KIND_OF = {"IsFuncDeclaration": "funcsig", "IsFuncPrototype": "proto", "IsEmptyLine": "empty", "IsComment": "comment",
+           "IsVarDeclaration": "global", "IsBlockEnd": "rbrace", "IsBlockStart": "lbrace", "IsUserDefinedType": "tbhead",
+           "IsTypedefDeclaration": "typedef", "IsEnumVarDecl": "enumr"}
+
+
+def sample_points(fname, text):
+    """Top-level insertion points of a raw text from the pop trace of the real run: (line, kind before, kind after)
+    for every statement that starts in column 1 at file level right after a statement that ended with a newline."""
+    from .. import impl
+    r = impl.run_text(fname, text, trace=True)
+    if r.exc is not None or not r.trace:
+        return None, 0, []
+    lines = text.split("\n")
+
+    def kind(tr):
+        prim, pos = tr[2], tr[3]
+        if prim == "IsPreprocessorStatement" and pos:
+            w = lines[pos[0] - 1].lstrip("#").split()
+            return w[0] if w else "hash"
+        return KIND_OF.get(prim, prim or "unrecognised")
+
+    pts = []
+    nfuncs = sum(1 for x in r.trace if x[2] == "IsFuncDeclaration")
+    for k in range(1, len(r.trace)):
+        prev, cur = r.trace[k - 1], r.trace[k]
+        if len(prev[5]) != 1 or cur[3] is None or cur[3][1] != 1 or prev[4] != "NEWLINE":
+            continue
+        kp, kc = kind(prev), kind(cur)
+        if kp == "empty" and kc == "empty":
+            continue
+        if kc == "lbrace" or kp in ("funcsig", "tbhead") or prev[2] is None or cur[2] is None:
+            continue
+        if lines[cur[3][0] - 2].endswith("\\"):
+            continue            # inside a spliced directive
+        if text.startswith("/* ****") and cur[3][0] <= header42.HEADER_NLINES + 1:
+            continue            # inside the 42 header
+        pts.append((cur[3][0], kp, kc))
+    return r, nfuncs, pts
+
+
+def sample_task(task):
+    fname, text = task
+    out = []
+    n = 1
+    r, nfuncs, pts = sample_points(fname, text)
+    if r is None:
+        return n, out
+    base = diffcommon.diag4(fname, text)
+    lines = text.split("\n")
+    # L1: the header (and its separating empty line) in front of a headerless file that starts with a non-empty line
+    inv = [d for d in base[0] if d[1] == "INVALID_HEADER"]
+    if len(inv) == 1 and lines[0].strip():
+        for sep, by in (("\n", header42.HEADER_NLINES + 1),):
+            v = header42.header_text(fname) + sep + text
+            n += 1
+            got = diffcommon.diag4(fname, v)
+            rest = list(base[0])
+            rest.remove(inv[0])
+            want = shift(rest, 1, by)
+            if got[1] is not None or sorted(got[0]) != want:
+                a, b = set(got[0]), set(want)
+                out.append(("L1", "sample:header-changes-other-diagnostics", f"with header only {sorted(a - b)[:3]}, shifted headerless only "
+                                                                            f"{sorted(b - a)[:3]}, exc {got[1]}", v, text))
+    # L2: a comment line at every top-level point
+    for (ln, kp, kc) in pts:
+        for c in COMMENTS:
+            v = "\n".join(lines[:ln - 1] + [c] + lines[ln - 1:])
+            n += 1
+            got = diffcommon.diag4(fname, v)
+            # INVALID_HEADER is a diagnostic about the start of the file (law L1), anchored after its leading comments
+            want = [d for d in shift(base[0], ln, 1) if d[1] != "INVALID_HEADER"]
+            got = ([d for d in got[0] if d[1] != "INVALID_HEADER"], got[1], got[2])
+            if got[1] is not None or sorted(got[0]) != want:
+                a, b = set(got[0]), set(want)
+                if lines[ln - 2].lstrip().startswith("#") and not a - b and {(d[1], d[2]) for d in b - a} == {("NL_AFTER_PREPROC", ln + 1)}:
+                    kp, kc = "directive", "code:only-NL_AFTER_PREPROC-disappears"
+                out.append(("L2", f"{'line' if c.startswith('//') else 'block'}-comment:between={kp}|{kc}",
+                            f"comment {c!r} before line {ln}: only after {sorted(a - b)[:3]}, only expected {sorted(b - a)[:3]}, exc {got[1]}",
+                            v, text))
+    # L3: appending a conforming function to a source with < 5 functions that ends at file level after a closing brace
+    if fname.endswith(".c") and nfuncs < 5 and len(r.trace[-1][5]) == 1 and text.endswith("}\n"):
+        for k, fn in enumerate(APPEND):
+            v = text + "\n" + fn
+            n += 1
+            got = diffcommon.diag4(fname, v)
+            if got[1] is not None or sorted(got[0]) != sorted(base[0]):
+                a, b = set(got[0]), set(base[0])
+                out.append(("L3", f"sample:append#{k}:funcs={nfuncs}", f"appending function #{k}: new {sorted(a - b)[:3]}, lost {sorted(b - a)[:3]}, "
+                                                                      f"exc {got[1]}", v, text))
     return n, out
 
 
@@ -163,6 +258,14 @@ def run(tier, seed):
         st.runs += n
         for law, label, detail, text, base in out:
             failures.append(Failure("C19", f"{law}:{label}", f"{t[0]}: {detail[:300]}", {"fname": t[0], "law": law, "text": text, "base": base}))
+    from .. import corpus
+    smp = list(corpus.samples())
+    sres = explore.pmap(sample_task, smp, chunksize=1)
+    for (fn, tx), (n, out) in zip(smp, sres):
+        st.runs += n
+        st.bump("sample_runs", n)
+        for law, label, detail, text, base in out:
+            failures.append(Failure("C19", f"{law}:{label}", f"{fn}: {detail[:300]}", {"fname": fn, "law": law, "text": text, "base": base}))
     st.states = len(files)
     st.transitions = st.runs
     st.outcomes = set(range(len(files)))
